@@ -167,6 +167,22 @@ pub fn items() -> Vec<Item> {
         v.push(Item::Compress(encode(&renamed, Strategy::Plain)));
         v.push(Item::Rename(encode(&renamed, Strategy::Max), nm("example.com"), nm("example.net"), true));
     }
+    // record texts prone to collide through leftover state: case twins of the same owner and of the same
+    // rdata names, and texts that pass the grammar but fail when the record is built (owner too long)
+    {
+        let long_owner = refmodel::text::name_with_wire_len(253) + ".toolong";
+        for (a, b) in [("Case.Example", "case.example"), ("case.example.", "CASE.EXAMPLE.")] {
+            for body in ["A 1.2.3.4", "TXT \"first\"", "MX 5 Mail.Case.Example", "SOA Ns.Case.Example. admin.case.example. ( 1 2 3 4 5 )", "DS 1 2 3 abcd", "NS ns.CASE.example"] {
+                v.push(Item::FromString(format!("{} 7 IN {}", a, body)));
+                v.push(Item::FromString(format!("{} 7 IN {}", b, body.to_ascii_lowercase().replace("in ", "IN "))));
+            }
+        }
+        for body in ["A 1.2.3.4", "TXT \"stale-data\"", "MX 5 mail.case.example", "DS 1 2 3 ffff"] {
+            v.push(Item::FromString(format!("{} 7 IN {}", long_owner, body)));
+        }
+        v.push(Item::FromString("ok.example 7 IN TXT \"hello\"".to_string()));
+        v.push(Item::FromString("ok.example 7 IN MX 5 mail.ok.example".to_string()));
+    }
     for t in ["x. 60 IN A 1.2.3.4", "a.b. 1 IN MX 10 mail.a.b.", "a. 1 IN SOA ns.a. admin.a. ( 1 2 3 4 5 )", "x. 0 IN TXT \"hello\\032world\"", "x. 1 IN DS 1 2 3 abcd", "x. 1 IN AAAA 2001:db8::1", "x. 1 IN NS", "", "x. 4294967296 IN A 1.2.3.4", "b.a 5 in cname c.b.a"] {
         v.push(Item::FromString(t.to_string()));
     }
@@ -228,8 +244,17 @@ fn run(ctx: &mut Ctx, rep: &mut Report) {
         }
     };
     let n = its.len();
-    // sequential histories
+    // sequential histories: this worker's calls form ONE history on ONE thread; every call's result is
+    // compared with its fresh-process baseline, and on a mismatch the whole history so far is the case
     let mut gi = 0u64;
+    let mut log: Vec<usize> = vec![];
+    let mut reported = 0;
+    let mut check = |rep: &mut Report, log: &Vec<usize>, i: usize, r: &String| {
+        if *r != base[i] && reported < 6 {
+            reported += 1;
+            rep.violation(&format!("history_dependent:{}", its[i].fname()), format!("{} gives a different result at position {} of a history of calls on one thread than in a fresh process (previous call: {})", its[i].fname(), log.len(), log.iter().rev().nth(1).map(|&k| its[k].fname()).unwrap_or("-")), json!({"kind": "seqlog", "log": log}));
+        }
+    };
     for g in 0..n {
         for f in 0..n {
             gi += 1;
@@ -237,30 +262,33 @@ fn run(ctx: &mut Ctx, rep: &mut Report) {
                 continue;
             }
             if ctx.journaling() {
-                ctx.journal(|| json!({"kind": "seq", "history": [its[g].to_json(), its[f].to_json()]}));
+                ctx.journal(|| json!({"kind": "seqlog", "log": log.iter().chain([g, f].iter()).collect::<Vec<_>>()}));
             }
-            let _ = eval(&its[g]);
+            log.push(g);
+            let r0 = eval(&its[g]);
+            check(rep, &log, g, &r0);
+            log.push(f);
             let r = eval(&its[f]);
+            check(rep, &log, f, &r);
             rep.transitions += 2;
             rep.states += 1;
             rep.class(&format!("seq {}>{} {}", its[g].fname(), its[f].fname(), kind_of(&r)));
-            if r != base[f] {
-                rep.violation(&format!("history_dependent:{}_after_{}", its[f].fname(), its[g].fname()), format!("{} gives a different result after {} than in a fresh process", its[f].fname(), its[g].fname()), json!({"kind": "seq", "history": [its[g].to_json(), its[f].to_json()]}));
-            }
             if ctx.tier == Tier::Thorough {
-                for h in 0..n {
-                    let _ = eval(&its[h]);
+                for h in (g % 7..n).step_by(7) {
+                    log.push(h);
+                    let r1 = eval(&its[h]);
+                    check(rep, &log, h, &r1);
+                    log.push(f);
                     let r2 = eval(&its[f]);
+                    check(rep, &log, f, &r2);
                     rep.transitions += 2;
-                    if r2 != base[f] {
-                        rep.violation(&format!("history_dependent:{}_after_{}", its[f].fname(), its[h].fname()), format!("{} gives a different result after {};{}", its[f].fname(), its[g].fname(), its[h].fname()), json!({"kind": "seq", "history": [its[g].to_json(), its[h].to_json(), its[f].to_json()]}));
-                    }
                 }
             }
         }
     }
+    rep.bump("sequential_history_length", log.len() as u64);
     if rep.samples.len() < MAX_SAMPLES && ctx.shard == 0 {
-        rep.sample(|| json!({"kind": "seq", "history": [its[0].to_json()["f"], its[7].to_json()["f"]], "baseline_kind": kind_of(&base[7])}));
+        rep.sample(|| json!({"kind": "seqlog", "first_calls": log.iter().take(8).map(|&i| its[i].fname()).collect::<Vec<_>>(), "history_length": log.len()}));
     }
     // randomness
     if ctx.shard == 0 {
@@ -406,21 +434,22 @@ fn explore_conc(ctx: &mut Ctx, rep: &mut Report, idx: &[usize], cits: &[Item], c
 
 fn replay(case: &Value) -> Result<String, String> {
     match case["kind"].as_str() {
-        Some("seq") => {
-            let hist: Vec<Item> = case["history"].as_array().map(|a| a.iter().map(Item::from_json).collect()).unwrap_or_default();
-            let last = hist.last().ok_or("empty history")?;
+        Some("seqlog") => {
+            let its = items();
+            let log: Vec<usize> = case["log"].as_array().map(|a| a.iter().map(|x| x.as_u64().unwrap_or(0) as usize).collect()).unwrap_or_default();
+            let last = *log.last().ok_or("empty history")?;
             // baseline in a fresh process: re-exec ourselves on the single item
             let tmp = std::env::temp_dir().join(format!("mc-c17-{}.json", std::process::id()));
-            std::fs::write(&tmp, json!({"property": "C17", "case": {"kind": "single", "item": last.to_json()}}).to_string()).map_err(|e| e.to_string())?;
+            std::fs::write(&tmp, json!({"property": "C17", "case": {"kind": "single", "item": its[last].to_json()}}).to_string()).map_err(|e| e.to_string())?;
             let o = std::process::Command::new(std::env::current_exe().unwrap()).args(["replay", tmp.to_str().unwrap()]).output().map_err(|e| e.to_string())?;
             let _ = std::fs::remove_file(&tmp);
             let out = String::from_utf8_lossy(&o.stdout).to_string();
             let baseline = out.lines().find(|l| l.starts_with("RESULT ")).map(|l| l[7..].to_string()).ok_or("no baseline")?;
             let mut r = String::new();
-            for it in &hist {
-                r = eval(it);
+            for &i in &log {
+                r = eval(&its[i]);
             }
-            println!("history of {} calls; last = {}", hist.len(), last.fname());
+            println!("history of {} calls on one thread; last = {} ; tail: {:?}", log.len(), its[last].fname(), log.iter().rev().take(6).rev().map(|&i| its[i].fname()).collect::<Vec<_>>());
             if r != baseline {
                 Err(format!("result after the history differs from the fresh-process result ({} vs {})", &r[..r.len().min(80)], &baseline[..baseline.len().min(80)]))
             } else {
